@@ -1443,8 +1443,17 @@ class Interp(object):
             return
         if isinstance(o, dict) and is_sym(k):
             raise Unsupported("symbolic dict key")
-        if isinstance(o, list) and is_sym(k):
-            raise Unsupported("symbolic list index store")
+        if isinstance(o, list) and isinstance(k, SymInt):
+            # store at a symbolic position: decided by case split over the concrete positions
+            n = len(o)
+            idx = k
+            if self.truth(idx < 0):
+                idx = idx + n
+            for i in range(n):
+                if self.truth(idx == i):
+                    o[i] = val
+                    return
+            raise ProgExc(IndexError, "list assignment index out of range")
         try:
             o[k] = val
         except _NATIVE_EXC as e:
